@@ -473,6 +473,25 @@ class Scenario:
             if g != want(ref.energy(x)):
                 self.fail(f'view operator {form}', 'energy', f'`{src}` has energy {g} at {x}, the arithmetic gives {want(ref.energy(x))}', 'assert False')
 
+    def pos(self):
+        """unary `+`: `BinaryQuadraticModel.__pos__` is a copy; QuadraticModel and the views define none (TypeError).  Whatever
+        comes out must have the operand's energies and the operand must be unchanged (no model node: predicate only)."""
+        kind = self.r.choice(['bqmS', 'bqmB', 'bqm0S', 'bqm0B', 'qm', 'view'])
+        if kind == 'view':
+            v = self.pick_view()
+            nm, ref = v, self.views[v]['ref']
+        else:
+            nm, _t, ref = self.operand(kind)
+        res = self.name('p')
+        before = self.snap_all([nm] + sorted(self.views))
+        err = self.attempt(f'{res} = +{nm}')
+        self.ctx.tick(f'views: unary + on {kind} -> ' + ('raises ' + err if err else type(self.ns[res]).__name__))
+        self.ctx.case(f'POS {kind} {self.n} {len(self.script)}', nontrivial=True)
+        if self.snap_all([nm] + sorted(self.views)) != before:
+            self.fail('unary +', 'operand modified', f'{nm} reads differently after `+{nm}`', '', watch=[nm] + sorted(self.views))
+        if not err:
+            self.check(res, ref, 'unary +')
+
     def compare(self, res, tree, ref):
         """(view op x) ⋈ c, then the constraint the view's own parent stores for it"""
         c06, r = self.c06, self.r
@@ -555,7 +574,8 @@ class Scenario:
         d = self.views[v]
         o = self.ns[v]
         vs = list(o.variables)
-        how = r.choice(['add_linear', 'set_linear', 'add_quadratic', 'offset', 'offset+=', 'set_objective', 'remove_constraint', 'add_variable'])
+        how = r.choice(['add_linear', 'set_linear', 'add_quadratic', 'offset', 'offset+=', 'set_objective', 'remove_constraint', 'add_variable',
+                        'remove_interaction', 'add_linear_new'])
         b = c06.dy(r)
         ref = d['ref'].copy()
         if how in ('add_linear', 'set_linear') and vs:
@@ -566,6 +586,18 @@ class Scenario:
             u, w = r.sample([l for l in vs if self.ty[l][0] != 'R'], 2)
             self.do(f'{v}.add_quadratic({u!r}, {w!r}, {float(b)!r})')
             ref.mono[pkey(u, w)] = ref.mono.get(pkey(u, w), F(0)) + b
+        elif how == 'remove_interaction' and o.num_interactions:
+            u, w = r.choice(sorted(o.quadratic, key=repr))
+            if r.random() < .5:
+                u, w = w, u
+            self.do(f'{v}.remove_interaction({u!r}, {w!r})')
+            ref.mono.pop(pkey(u, w), None)
+        elif how == 'add_linear_new' and [l for l in self.ns['cqm'].variables if l in self.ty and l not in vs]:
+            # a variable of the parent the view does not have yet: the view gains it
+            l = r.choice([l for l in self.ns['cqm'].variables if l in self.ty and l not in vs])
+            self.do(f'{v}.add_linear({l!r}, {float(b)!r})')
+            ref.mono[(l,)] = b
+            ref.vs.add(l)
         elif how == 'offset':
             self.do(f'{v}.offset = {float(b)!r}')
             ref.mono[()] = b
@@ -673,7 +705,7 @@ class Scenario:
                         elif m2 < .7:
                             self.set_objective(*out)
                 elif m < .55:
-                    self.refused()
+                    self.refused() if r.random() < .8 else self.pos()
                 elif m < .8:
                     self.mutate()
                 else:
